@@ -375,6 +375,15 @@ def generate(seed, tier):
     sc = workload.pair_scenario(seed, PROP, o)
     T = sc['until']
     ops = sc['ops']
+    # `index: 0` is a legal index like any other (the outbound policy index is then 0 << 3 | OUT): one entry of one node in 15 % of the runs
+    # (decided by a PRNG of its own, the scenario is otherwise the one it was)
+    rz = random.Random(f'C15zero:{seed}')
+    if rz.random() < 0.15:
+        nz = rz.choice(sorted(sc['nodes']))
+        ents = [e for c in sc['nodes'][nz]['conf'].values() if isinstance(c, dict) for e in c.get('protect', [])]
+        if ents and all(e.get('index') for e in ents):
+            rz.choice(ents)['index'] = 0
+            sc['meta']['index_zero'] = nz
     # a second connection on A (peer Q does not exist) so that several connections are installed
     if sc['meta']['family'] == 4 and r.random() < 0.5:
         c2, _, _ = configs.make_pair(r, {'profile': 'mid', 'entries': 2, 'family': 4, 'addr_pair': ('10.0.0.1', '10.0.0.7'), 'index_base': 100})
